@@ -323,8 +323,9 @@ Definition is_up_to_date (l : raft_log) (last_i t : N) : Res bool :=
   Ok ((lt <? t) || ((t =? lt) && (last_index l <=? last_i))).
 
 Definition applied_index_upper_bound (l : raft_log) : Res N :=
-  let s := persisted l + max_apply_unpersisted_log_limit l in
-  if u64_max <? s then Panic site_l_overflow else Ok (N.min (committed l) s).
+  (* persisted.saturating_add(limit) *)
+  let s := N.min u64_max (persisted l + max_apply_unpersisted_log_limit l) in
+  Ok (N.min (committed l) s).
 
 Definition next_entries_since (l : raft_log) (since : N) (max : option N)
   : Res (option (list entry)) :=
